@@ -678,7 +678,26 @@ def inject(ctx):
             return False
         if pv[0] != 'var':
             pv = cf.expr_of_operand(pushes[0]['term']['args'][1])
-        if pv[0] == 'var':
+        if strip(pv)[0] == 'agg' and strip(pv)[1].endswith('function::Function'):
+            # field by field (struct literal, or the struct local split into its fields): everything but name and body is the
+            # corresponding field of one whole clone of the element
+            fl = dict(strip(pv)[2])
+            clones = set()
+            okf = True
+            for k_, v_ in fl.items():
+                if k_ in ('name', 'body'):
+                    continue
+                v_ = strip(v_)
+                while v_[0] == 'call' and v_[1].endswith('::clone') and v_[2]:
+                    v_ = strip(v_[2][0])
+                if v_[0] == 'field' and v_[2] == k_ and (whole_clone(v_[1]) or whole_clone(strip(v_[1])) or
+                                                            any(isinstance(y, tuple) and y[0] == 'payload' and y[2] == 'Some' and is_call(strip(y[1]), 'Iterator::next') for y in [strip(v_[1])])):
+                    clones.add(repr(strip(v_[1])))
+                else:
+                    okf = False
+            okw = okf and len(clones) == 1 and set(fl) >= {'visibility', 'doc', 'arguments', 'return_type', 'calling_convention'}
+            detw = 'fields other than name/body are the element\'s own: %s' % okf
+        elif pv[0] == 'var':
             inits = cf.init_of(pv[1])
             stores_ = [x[3]['place']['proj'] for x in cf.stores().get(pv[1], []) if x[2] == 'rv' or True]
             fields_ = {pr[0]['name'] for pr in stores_ if pr and pr[0].get('k') == 'Field'}
@@ -723,28 +742,38 @@ def original_name_ok(cf, op):
             taken = True
         else:
             src = e
-        if not (src[0] == 'field' and src[2] == 'name'):
-            return False
-        holder = src[1]
-        while holder[0] in ('ref', 'deref'):
-            holder = holder[1]
-        if holder[0] != 'var':
-            # the iterator element itself (never written)
-            if taken or not any(isinstance(y, tuple) and y[0] == 'payload' and y[2] == 'Some' for y in walk(holder)):
+        sro = src[0] == 'var' and (cf.locals[src[1]].get('sroa') or [None, None])[1] == 'name'
+        if sro:
+            # the struct was split into per-field locals: `src` is the name field's own local
+            NL = src[1]
+            init_defs = [x for x in cf.defs().get(NL, []) if x[2] == 'rv' and cf.blocks[x[0]]['stmts'][x[1]].get('sroa')]
+            inits = {x[0] for x in init_defs}
+            writes = [(x[0], 'st' if x[2] == 'rv' else 'call') for x in cf.defs().get(NL, []) if x not in init_defs and not (x[0] == bi and x[1] == si)]
+            is_name_place = lambda a0: a0[:2] == ('var', NL)
+        else:
+            if not (src[0] == 'field' and src[2] == 'name'):
                 return False
-            continue
-        F = holder[1]
-        inits = {x[0] for x in cf.defs().get(F, [])}
-        writes = [(x[0], 'st') for x in cf.stores().get(F, []) if x[3]['place']['proj'] and x[3]['place']['proj'][0].get('name') == 'name']
+            holder = src[1]
+            while holder[0] in ('ref', 'deref'):
+                holder = holder[1]
+            if holder[0] != 'var':
+                # the iterator element itself (never written)
+                if taken or not any(isinstance(y, tuple) and y[0] == 'payload' and y[2] == 'Some' for y in walk(holder)):
+                    return False
+                continue
+            F = holder[1]
+            inits = {x[0] for x in cf.defs().get(F, [])}
+            writes = [(x[0], 'st') for x in cf.stores().get(F, []) if x[3]['place']['proj'] and x[3]['place']['proj'][0].get('name') == 'name']
+            is_name_place = lambda a0: a0[0] == 'field' and a0[2] == 'name' and strip_refs(a0[1])[:2] == ('var', F)
         for c in cf.calls(lambda r: r['path'] and re.search(r'mem::(replace|take|swap)$', r['path'])):
             a0 = strip_refs(cf.expr_of_operand(c['term']['args'][0]))
-            if a0[0] == 'field' and a0[2] == 'name' and strip_refs(a0[1])[:2] == ('var', F) and not (kind == 'call' and c['block'] == bi):
+            if is_name_place(a0) and not (kind == 'call' and c['block'] == bi):
                 writes.append((c['block'], 'call'))
         for wb, wk in writes:
             if wb == bi and wk == 'st' and kind == 'call':
                 return False        # statement before this block's terminator
-            if wb != bi and bi in cf.reach(wb, stop=inits):
-                return False
+            if wb != bi and bi not in inits and bi in cf.reach(wb, stop=inits):
+                return False        # (a read in the block that re-initialises F comes after the initialisation)
     return True
 
 
